@@ -5,7 +5,7 @@ use common_lang_types::{
     WithEmbeddedLocation, WithLocationPostfix,
 };
 use isograph_lang_types::{
-    ClientScalarSelectableDirectiveSet, DefinitionLocation, DefinitionLocationPostfix,
+    ArgumentKeyAndValue, ClientScalarSelectableDirectiveSet, DefinitionLocation, DefinitionLocationPostfix,
     EmptyDirectiveSet, LoadableDirectiveParameters, ObjectSelection, ObjectSelectionDirectiveSet,
     ScalarSelection, ScalarSelectionDirectiveSet, Selection, SelectionSet, SelectionType,
     SelectionTypePostfix, from_isograph_field_directives,
@@ -456,19 +456,35 @@ fn user_written_variant_ast_node<TCompilationProfile: CompilationProfile>(
         &paths_to_refetch_field_in_client_scalar_selectable,
     );
 
-    let arguments = get_serialized_field_arguments(
-        // Note: this is confusing. We're using the parent context to determine the
-        // arguments **to** the client field, and the child context (above) for the
-        // refetch paths **within** the client field.
-        &transform_arguments_with_child_context(
-            scalar_field_selection
+    // Note: this is confusing. We're using the parent context to determine the
+    // arguments **to** the client field, and the child context (above) for the
+    // refetch paths **within** the client field.
+    let mut arguments_and_defaults = transform_arguments_with_child_context(
+        scalar_field_selection
+            .arguments
+            .iter()
+            .map(|x| x.item.into_key_and_value()),
+        initial_variable_context,
+    );
+    // A variable of the client field that is not passed takes its default value. The merged
+    // selection set (i.e. the query text and the normalization AST) is built with that default
+    // (see child_variable_context), so the reader must be given the same value, or it would
+    // read the field with `null` instead.
+    for variable_definition in nested_client_scalar_selectable.arguments.iter() {
+        let variable_name = variable_definition.name.item;
+        if let Some(default_value) = variable_definition.default_value.as_ref()
+            && !scalar_field_selection
                 .arguments
                 .iter()
-                .map(|x| x.item.into_key_and_value()),
-            initial_variable_context,
-        ),
-        indentation_level + 1,
-    );
+                .any(|argument| argument.item.name.item == variable_name.0)
+        {
+            arguments_and_defaults.push(ArgumentKeyAndValue {
+                key: variable_name.0.unchecked_conversion(),
+                value: default_value.item.clone().into(),
+            });
+        }
+    }
+    let arguments = get_serialized_field_arguments(&arguments_and_defaults, indentation_level + 1);
 
     let reader_artifact_import_name = format!(
         "{}__resolver_reader",
